@@ -60,6 +60,19 @@ RowFails(r) ==
           \cup W(\A k \in 1..Len(r.layers) : r.gate_idx[k] = [j \in 1..Len(r.layers[k].gates) |->
                      <<CHOOSE x \in {r.index_map[n][2] : n \in {m \in 1..Len(r.index_map) : r.index_map[m][1] = r.layers[k].gates[j][1]}} : TRUE,
                        CHOOSE x \in {r.index_map[n][2] : n \in {m \in 1..Len(r.index_map) : r.index_map[m][1] = r.layers[k].gates[j][2]}} : TRUE>>], "C17.indices"))
+    [] r.t = "composite" ->
+         \* exclusions: a gate is dropped iff its edge is excluded (in either orientation) or it touches an excluded qubit;
+         \* with "only required parking" exactly the qubits that require parking for the kept gates are parked
+         (W(Len(r.layers) = Len(r.base), "C17.derive.layers")
+          \cup (IF Len(r.layers) = Len(r.base)
+                THEN UNION {LET kept == {e \in EdgeSet(r.base[k].gates) : e \notin EdgeSet(r.exclude_edges) /\ e \cap SeqSet(r.exclude_qubits) = {}} IN
+                            W(EdgeSet(r.layers[k].gates) = kept, "C17.derive.exclusions")
+                            \cup (IF r.only_required /\ kept \subseteq Edges /\ Disjoint(kept)
+                                  THEN W(SeqSet(r.layers[k].parks) = ParkSet(kept), "C17.exec.parking")
+                                  ELSE W(SeqSet(r.layers[k].parks) = SeqSet(r.base[k].parks) \/ r.only_required, "C17.derive.parks"))
+                            \cup W(SeqSet(r.layers[k].parks) \cap QubitsOf(EdgeSet(r.layers[k].gates)) = {}, "C17.exec.park_and_gate")
+                            : k \in 1..Len(r.layers)}
+                ELSE {}))
     [] OTHER -> {"C16.unknown_row"}
 
 Covered ==
